@@ -63,6 +63,7 @@ def run(F, R):
         if {'peek_used', 'pop_used', 'add'} <= reached.get(b['id'], set()) and b.get('impl_adt') in stocked:
             q1_pop_readd(F, R, M, b, roles, byrole)
     q5_stocking(F, R, M, roles, byrole)
+    q12_no_event_dropped(F, R, M)
     q4b_exposure_table(F, R, M, roles)
     q6_no_access_after_post(F, R, M, roles)
     from .C03 import counters_rule
@@ -85,6 +86,47 @@ def run(F, R):
     wrap_rule(F, R, 'Q11')
     # Q10: delivered events are what the device wrote: the notification-type decoding table agrees with the enum's codes
     decode_tables_rule(F, R, 'Q10', ['device::sound', 'device::input', 'device::socket'])
+
+
+def q12_no_event_dropped(F, R, M):
+    """Driver level: an event obtained from the owning queue's poll is handed to the caller - a driver function does not go round
+    a loop again (polling for the next one) on a path where poll has just yielded an event, unless it stores that event into a
+    collection it returns; otherwise all but one of the events completed between two calls are consumed and never delivered."""
+    polls = set(b['id'] for b in F.bodies.values() if b.get('impl_adt') == M.owning_adt and 'impl_trait' not in b and b.get('pub') and b['kind'] == 'AssocFn'
+                and any(bl['term']['k'] == 'call' and bl['term'].get('trait') in ('core::ops::FnOnce', 'core::ops::FnMut', 'core::ops::Fn') for bl in b['blocks']))
+    n = 0
+    for b in sorted(F.bodies.values(), key=lambda x: x['id']):
+        if not F.handwritten(b) or b.get('impl_adt') == M.owning_adt or b['kind'] not in ('AssocFn', 'Fn'):
+            continue
+        if not any(bl['term']['k'] == 'call' and bl['term'].get('fn') in polls for bl in b['blocks']):
+            continue
+        sg = supergraph(F, b['id'], opaque=lambda t, bb: True, tag='q12', max_depth=0)
+        where = fn_site(F, b['id'])
+        try:
+            paths = [p for p in PathEnum(sg).run() if not p.panicked]
+        except PathLimit as e:
+            R.abstain('Q12', '%s:no-event-dropped' % b['id'], str(e), where)
+            continue
+        n += 1
+        bad = None
+        for p in paths:
+            if getattr(p, 'end', (None,))[0] != 'loop':
+                continue
+            got = False
+            for c in p.conds:
+                d = c[0]
+                if d[0] == 'discr' and d[1][0] != 'call' and any(x[0] == 'call' and x[2] in polls for x in subterms(d[1])):
+                    some = (c[1][0] == 'in' and 0 not in c[1][1]) or (c[1][0] == 'notin' and 0 in c[1][1])
+                    got = got or some
+            if not got:
+                continue
+            kept = any(e[0] == 'call' and e[2].rsplit('::', 1)[-1] in ('push', 'push_back', 'extend', 'insert') and any(
+                x[0] == 'call' and x[2] in polls for a in e[3] for x in subterms(a)) for e in p.effects)
+            if not kept:
+                bad = 'on a path where poll yielded an event the function loops to poll again without returning or collecting it'
+        R.check(bad is None, 'Q12', '%s:no-event-dropped' % b['id'], where, 'every event obtained from poll is returned (or collected) before polling again',
+                '%s: %s - events completed between two calls are consumed from the queue but only the last one is delivered' % (b['name'], bad))
+    R.count('poll_users', n)
 
 
 def poll_rule(F, R, rule):
